@@ -468,6 +468,32 @@ def o_merkleblock(case):
     rp = 36 + (bit // 8) % 32
     corrupted.append(("header-root-altered", rp - 36, hdr[:rp] + bytes([hdr[rp] ^ (1 << (bit % 8))]) + hdr[rp + 1:], hashes, flags))
     refusers = set()
+    # ---- hashes added as a whole duplicated subtree (CVE-2012-2459 shape): where a level has odd width its last node is
+    # paired with itself, so the same root is obtained from a longer leaf list that repeats that node's leaves; the proof is
+    # then built honestly over the longer list with a match inside the repeated part.  Count, hashes and flags all differ
+    # from the honest proof, the root does not.
+    forged = []
+    width, span = n, 1
+    while width > 1:
+        if width & 1:
+            lo = (width - 1) * span
+            tail = txids[lo:lo + span]
+            if len(tail) == span or span == 1:
+                ids2 = txids + tail
+                if ref.merkle_root(ids2) == root and len(ids2) > n:
+                    for pick in sorted({0, len(tail) - 1, bit % len(tail)}):
+                        m2 = list(match) + [0] * len(tail)
+                        m2[n + pick] = 1
+                        hs2, fl2, _nb = ref.build_proof(ids2, m2)
+                        forged.append(("subtree-duplicated:leaves=%s" % (1 if span == 1 else "2+"), n + pick, len(ids2), hs2, fl2))
+        width, span = (width + 1) // 2, span * 2
+    for kind, p, n2, hs2, fl2 in forged:
+        assert ref.verify_proof(root, n2, hs2, fl2) is None, (kind, p)
+        r = _refused(net, ref.ser_merkleblock(hdr, n2, hs2, fl2))
+        if r is None:
+            _bad("merkleblock:corruption-accepted:" + kind, "n=%d mask=%x: a proof over %d leaves that repeat the last odd subtree, with a match at "
+                 "position %d inside the repeated part, was accepted" % (n, mask, n2, p))
+        refusers.add(r)
     for kind, p, h2, hs2, fl2 in corrupted:
         assert ref.verify_proof(h2[36:68], n, hs2, fl2) is None, (kind, p)
         r = _refused(net, ref.ser_merkleblock(h2, n, hs2, fl2))
@@ -481,6 +507,8 @@ def o_merkleblock(case):
               "padbits=%d" % (8 * len(flags) - nbits)]
     if _odd_deep(n):
         labels.append("odd-level-depth>=2")
+    for kind in sorted({f[0] for f in forged}):
+        labels.append("forged:" + kind)
     labels += ["refused-by=" + r for r in sorted(refusers)]
     return labels
 
